@@ -2,13 +2,19 @@
 (***************************************************************************)
 (* Test-vector generation for C30 (MBT): every TLS configuration           *)
 (* (Min/Max in {unset, 1.0 .. 1.3}^2 x five ClientAuth modes x CA file      *)
-(* present/absent) against every client (version range x certificate kind) *)
+(* present/absent x InsecureSkipVerify x cipher-suite list) against every client (version range x certificate kind) *)
 (* with the outcome TLSPolicyOps predicts, written to IOEnv.VF_VECTORS.     *)
 (***************************************************************************)
 EXTENDS TLSPolicyOps, TLC, Json, IOUtils, SequencesExt
 
+CONSTANT Variants   \* the (InsecureSkipVerify, cipher-suite list) combinations to generate:
+                    \* subset of {"plain", "skip", "listed", "skip+listed"}
+VariantOf(c) == IF c.skip THEN (IF c.suites = "default" THEN "skip" ELSE "skip+listed")
+                ELSE (IF c.suites = "default" THEN "plain" ELSE "listed")
+
 Vectors == {[cfg |-> c, accepts |-> Accepts(c),
-             clients |-> SetToSeq({[cl |-> cl, expect |-> Handshake(c, cl)] : cl \in Clients})] : c \in Cfgs}
+             clients |-> SetToSeq({[cl |-> cl, expect |-> Handshake(c, cl)] : cl \in Clients})] :
+               c \in {x \in Cfgs : VariantOf(x) \in Variants}}
 
 ASSUME ndJsonSerialize(IOEnv.VF_VECTORS, SetToSeq(Vectors))
 
